@@ -8,6 +8,15 @@ ROOT = os.path.dirname(os.path.dirname(os.path.abspath(__file__)))
 
 # id -> (design_ref, text, note, technique)
 CLAIMED = {
+    "C10": ("5/C10",
+            "A pointer-level TLA+ heap model of container/list semantics (sentinels, next/prev/owner pointers, len; live, removed, "
+            "foreign and Init-orphaned handles; a list as its own argument) is checked by TLC (ring well-formedness) and its complete "
+            "transition systems are replayed edge by edge in lock-step on THREE objects: Go's container/list (validates the model), the "
+            "lock-free and the thread-safe hive.go list; forwards/backwards order, Len and Prev/Next/Value of every handle are compared "
+            "after every call; recorded random histories validated by TLC.",
+            "2 lists, 3-4 handles (6 in traces), values {1,2}; concurrent use of the thread-safe flavour is not covered; calls that may "
+            "hang are bounded by a 2 s watchdog and reported as HANG.",
+            "TLA+ heap model (TLC exhaustive), LTS replay on container/list + both hive.go lists, TLC trace validation"),
     "C08": ("5/C08",
             "An implementation-level TLA+ model of BatchedWriter (Enqueue in 4 steps, writer loop with receive/flush/time-out, collector, "
             "Commit, Done callbacks, Stop) is checked by TLC for ALL interleavings of 2 producers x 2 objects (no loss, write-before-done, "
